@@ -33,4 +33,10 @@ theorem derived_attrs_cover :
       (fun n => (derivedAttrs.map (fun r => r.1)).contains n) = true := by
   decide +kernel
 
+/-- the constructor signatures of the running classes are M's primaries, in order -/
+theorem ctor_args_match : ctorArgs.all ctorOk = true := by decide +kernel
+
+/-- every measured setter accepts / rejects the probe values exactly as M's constraint table says -/
+theorem acceptance_match : acceptance.all acceptOk = true := by decide +kernel
+
 end Rpylib.Params
